@@ -3,6 +3,7 @@ import Ruint.Model.Fmt
 import Ruint.Spec.Radix
 import Ruint.Spec.Fmt
 import Ruint.Gen.WordsRadix
+import Ruint.Gen.WordsStr
 /-! Driver for C09: model column = `Ruint.Radix.*` / `Ruint.Fmt.*` — for `from_base_le`, `from_base_be` and the digit
 spigot the functions GENERATED from `src/base_convert.rs` (`Ruint.Gen.uint_from_base_le`, `uint_from_base_be`,
 `spigot_next`; `Props/C09.gen_*_eq` prove them equal to the hand models on word digits, where the driver uses them); spec column = positional notation on `Nat`
@@ -70,6 +71,16 @@ def outParse : Except ParseErr (List Nat) → String
   | .error (.invalidChar c) => "err InvalidChar " ++ toHex c.toNat
   | .error (.invalidRadix r) => "err InvalidRadix " ++ toHex r
   | .error (.base e) => "err Base " ++ baseErrStr e
+
+/-- outcome of the parsers GENERATED from `src/string.rs` (`Gen/WordsStr`: `from_str_radix`, `from_str`), in the format of
+    `outParse`; error tuples are (variant, fields…) with `BaseConvertError` flattened behind variant 2. -/
+def outGenParse : Except (Nat × Nat × Nat × Nat) (List Nat) → String
+  | .ok l => "ok " ++ toHex (val l)
+  | .error (0, c, _, _) => "err InvalidChar " ++ toHex c
+  | .error (1, r, _, _) => "err InvalidRadix " ++ toHex r
+  | .error (_, 0, _, _) => "err Base Overflow"
+  | .error (_, 1, b, _) => "err Base InvalidBase " ++ toHex b
+  | .error (_, _, d, b) => "err Base InvalidDigit " ++ toHex d ++ " " ++ toHex b
 
 def pred (b : Bool) (why : String) : String := if b then "pred:true" else "pred:false " ++ why
 
@@ -200,7 +211,11 @@ def handle (args : List String) (impl : String) : String × String :=
       let radix := parseHex b
       match textIn x with
       | none => ("bad-op", "bad-op")
-      | some src => (outParse (fromStrRadix bits radix src), strPred bits radix src impl)
+      | some src =>
+        -- model column: the GENERATED `from_str_radix` (radices are `u64`; `Props/C09.gen_from_str_radix_eq`)
+        ((if radix < 2 ^ 64 then
+            outGenParse (Ruint.Gen.uint_from_str_radix (src.length + nlimbs bits + 2) bits (nlimbs bits) (src.map Char.toNat) radix)
+          else outParse (fromStrRadix bits radix src)), strPred bits radix src impl)
     | "sweep" =>
       -- every Unicode scalar value in [lo, hi] as the second character of "1<c>" ("B<c>" above radix 36: the digit 1 of
       -- that alphabet) — exhaustive over `char` for the radix. The model is evaluated on the characters `classify` does
@@ -251,7 +266,8 @@ def handle (args : List String) (impl : String) : String × String :=
       | none => ("bad-op", "bad-op")
       | some src =>
         let (rest, radix) := sniff src
-        (outParse (fromStr bits src), strPred bits radix rest impl)
+        (outGenParse (Ruint.Gen.uint_from_str (src.length + nlimbs bits + 2) bits (nlimbs bits) (src.map Char.toNat)),
+          strPred bits radix rest impl)
     | _ => ("bad-op", "bad-op")
   | _ => ("bad-op", "bad-op")
 
